@@ -29,6 +29,8 @@ pub struct Obj {
     /// its destructor unwound (injected fault): if that happened while the sweep was freeing it,
     /// the crate leaks its block by construction - accounted for, narrowly, by the oracles
     pub drop_faulted: bool,
+    /// Leaky only: its write guard was leaked - no borrow of it can succeed again
+    pub leaked: bool,
 }
 
 #[derive(Clone, Debug, Default)]
